@@ -13,6 +13,7 @@ import (
 
 	"gxverif/hx"
 	gi "gxverif/ipam"
+	"gxverif/plugin"
 )
 
 const prop = "C08"
@@ -374,17 +375,50 @@ func anyFree(e *hx.Env, v gi.View) uint32 {
 	return l[e.Rng.Intn(len(l))]
 }
 
+// replayAny: C08 has two kinds of replay / corpus files — IPAM-level histories (JSON ops, harness/ipam) and bind-level
+// histories of the scheduler plugin (harness/plugin op lines, first line `init …`).
+func (rn *runner) replayAny(path string) {
+	lines, err := hx.ReadOps(path)
+	if err != nil || len(lines) == 0 || strings.HasPrefix(lines[0], "{") {
+		rn.ReplayFile(path, rn.monitor)
+		return
+	}
+	t, err := plugin.ReplayOps(lines, rn.E.Rng, plugin.MonitorC08)
+	if err != nil {
+		rn.R.Disagree = append(rn.R.Disagree, hx.Disagreement{Where: "bind-replay", Impl: path, Model: err.Error()})
+		return
+	}
+	rn.R.Case(strings.Join(t.Ops, "\n"), true)
+	rn.R.Hit("corpus-file-bind-level")
+	rn.R.Traces++
+	for _, v := range t.Violations {
+		v.Signature = strings.TrimSuffix(v.Signature, ":by=bind")
+		v.Replay = path
+		rn.R.Violations = append(rn.R.Violations, v)
+	}
+	if t.Hang != "" {
+		rn.R.Violations = append(rn.R.Violations, hx.Violation{Signature: "bind-op-" + strings.Fields(t.Hang)[0], What: t.Hang, Replay: path})
+		return
+	}
+	if d, err := plugin.Compare(rn.E, t); err != nil {
+		rn.R.Disagree = append(rn.R.Disagree, hx.Disagreement{Where: "driver-failed", Impl: err.Error(), Replay: path})
+	} else if d != nil {
+		d.Replay = path
+		rn.R.Disagree = append(rn.R.Disagree, *d)
+	}
+}
+
 func run(e *hx.Env) *hx.Report {
 	rn := &runner{gi.NewRunner(e, prop,
 		"a case is nontrivial when it requests at least 2 range lists and either succeeds or reaches the create loop; each case is "+
 			"re-run from the same prefix with a failing create at every index")}
 	if e.Replay != "" {
-		rn.ReplayFile(e.Replay, rn.monitor)
+		rn.replayAny(e.Replay)
 		rn.Flush()
 		return rn.R
 	}
 	for _, f := range gi.CorpusFiles(prop) {
-		rn.ReplayFile(f, rn.monitor)
+		rn.replayAny(f)
 	}
 	n := e.N(1500, 20000)
 	for i := 0; i < n; i++ {
@@ -395,7 +429,26 @@ func run(e *hx.Env) *hx.Report {
 		}
 	}
 	rn.Flush()
+	bindLevel(e, rn.R)
 	return rn.R
+}
+
+// bindLevel: the bind-level clause of C08 on the REAL scheduler plugin (harness/plugin): partially pre-owned multi-range
+// pods (every non-empty proper subset of the requested ranges pre-owned, "a later range but not an earlier one"
+// included) go through the real Filter / Bind; monitor: the binding annotation has exactly k distinct ips, the i-th inside
+// the i-th requested range (request order), pre-owned ones reused, all routable from the node, nothing new stays allocated
+// after a failed bind; every history is compared with gxdrv_plugin.
+func bindLevel(e *hx.Env, r *hx.Report) {
+	b := plugin.RunBindRanges(e, prop)
+	for i := range b.Violations {
+		b.Violations[i].Signature = strings.TrimSuffix(b.Violations[i].Signature, ":by=bind")
+	}
+	for k, v := range b.Stats {
+		r.Histogram["bind-"+k] += v
+	}
+	b.Stats = map[string]int{}
+	b.Fill(r)
+	r.Extra["bind_level_histories"] = b.Histories
 }
 
 func main() { hx.Main(prop, run) }
